@@ -11,7 +11,9 @@ import (
 
 	proxyv1alpha1 "github.com/kubewharf/kubegateway/pkg/apis/proxy/v1alpha1"
 	gwinformers "github.com/kubewharf/kubegateway/pkg/client/informers"
+	gwinformersv1 "github.com/kubewharf/kubegateway/pkg/client/informers/proxy/v1alpha1"
 	gwfake "github.com/kubewharf/kubegateway/pkg/client/kubernetes/fake"
+	gwlisters "github.com/kubewharf/kubegateway/pkg/client/listers/proxy/v1alpha1"
 	"github.com/kubewharf/kubegateway/pkg/gateway/controllers"
 	proxyoptions "github.com/kubewharf/kubegateway/pkg/gateway/proxy/options"
 )
@@ -28,11 +30,61 @@ type Live struct {
 	w    *watch.RaceFreeFakeWatcher
 	n    int // watches opened
 	stop chan struct{}
+	hl   *holdingLister
 }
 
 var gvr = proxyv1alpha1.SchemeGroupVersion.WithResource("upstreamclusters")
 
-func NewLive() *Live {
+func NewLive() *Live { return newLive(false) }
+
+// NewLiveHolding is NewLive with a lister that can hold one Get: after Hold(), the next Get that the controller's
+// worker makes returns only when Release() is called (it has read its answer by then) - a worker caught between
+// reading the latest object and applying it.
+func NewLiveHolding() *Live { return newLive(true) }
+
+// Hold arms the lister; Held reports whether a Get is being held; Release lets it go.
+func (l *Live) Hold()      { l.hl.mu.Lock(); l.hl.armed = true; l.hl.mu.Unlock() }
+func (l *Live) Held() bool { l.hl.mu.Lock(); defer l.hl.mu.Unlock(); return l.hl.held }
+func (l *Live) Release() {
+	l.hl.mu.Lock()
+	if l.hl.held {
+		l.hl.held = false
+		close(l.hl.release)
+	}
+	l.hl.armed = false
+	l.hl.mu.Unlock()
+}
+
+type holdingLister struct {
+	gwlisters.UpstreamClusterLister
+	mu          sync.Mutex
+	armed, held bool
+	release     chan struct{}
+}
+
+func (h *holdingLister) Get(name string) (*proxyv1alpha1.UpstreamCluster, error) {
+	o, err := h.UpstreamClusterLister.Get(name)
+	h.mu.Lock()
+	if !h.armed {
+		h.mu.Unlock()
+		return o, err
+	}
+	h.armed, h.held = false, true
+	h.release = make(chan struct{})
+	ch := h.release
+	h.mu.Unlock()
+	<-ch
+	return o, err
+}
+
+type holdingInformer struct {
+	gwinformersv1.UpstreamClusterInformer
+	l *holdingLister
+}
+
+func (h holdingInformer) Lister() gwlisters.UpstreamClusterLister { return h.l }
+
+func newLive(holding bool) *Live {
 	l := &Live{gw: gwfake.NewSimpleClientset(), stop: make(chan struct{})}
 	l.gw.PrependWatchReactor("upstreamclusters", func(k8stesting.Action) (bool, watch.Interface, error) {
 		l.mu.Lock()
@@ -42,7 +94,11 @@ func NewLive() *Live {
 		return true, l.w, nil
 	})
 	f := gwinformers.NewSharedInformerFactory(l.gw, 0)
-	inf := f.Proxy().V1alpha1().UpstreamClusters()
+	var inf gwinformersv1.UpstreamClusterInformer = f.Proxy().V1alpha1().UpstreamClusters()
+	if holding {
+		l.hl = &holdingLister{UpstreamClusterLister: inf.Lister()}
+		inf = holdingInformer{UpstreamClusterInformer: inf, l: l.hl}
+	}
 	l.C = controllers.NewUpstreamClusterController(inf, proxyoptions.NewRateLimiterOptions())
 	f.Start(l.stop)
 	go l.C.Run(l.stop)
